@@ -106,7 +106,15 @@ def poll_thread(m):
                     tgt = k.value
             if isinstance(tgt, ast.Attribute) and dotted(tgt.value) == 'self':
                 if m.has_method(MODULE, tgt.attr, inherited=False):
-                    return m.method(MODULE, tgt.attr, inherited=False)
+                    fi = m.method(MODULE, tgt.attr, inherited=False)
+                    # a thin wrapper (no loop of its own) around the real body: follow it one level
+                    if not any(isinstance(n, ast.While) for n in body_walk(fi.node)):
+                        for c2 in calls_in(fi.node):
+                            if isinstance(c2.func, ast.Attribute) and dotted(c2.func.value) == 'self' and m.has_method(MODULE, c2.func.attr, inherited=False):
+                                g = m.method(MODULE, c2.func.attr, inherited=False)
+                                if any(isinstance(n, ast.While) for n in body_walk(g.node)):
+                                    return g
+                    return fi
     raise AnchorMissing('poll thread body (mkthread target in Module.startModule) not found')
 
 
